@@ -64,11 +64,11 @@ type c16In struct {
 }
 
 type c16Obs struct {
-	Err     string     `json:"err,omitempty"`
-	Solvers []string   `json:"solvers"`
-	Probes  []string   `json:"probes"`
-	Mem     []string   `json:"mem"`
-	Store   []string   `json:"store"`
+	Err     string      `json:"err,omitempty"`
+	Solvers []string    `json:"solvers"`
+	Probes  []string    `json:"probes"`
+	Mem     []string    `json:"mem"`
+	Store   []string    `json:"store"`
 	Recs    [][2]string `json:"recs"`
 	DMem    [][2]string `json:"dmem"`
 }
@@ -127,7 +127,7 @@ func (e *c16Env) setup(in c16In, r *rand.Rand) (*c16Hist, error) {
 		case "free":
 			h.addrs = append(h.addrs, fmt.Sprintf("%s:%d", e.host, freePort(e.host)))
 		case "occupied":
-			ln, err := net.Listen("tcp", e.host+":0")
+			ln, err := net.Listen("tcp", fmt.Sprintf("%s:%d", e.host, freePort(e.host)))
 			if err != nil {
 				return nil, err
 			}
@@ -211,14 +211,14 @@ func dialable(addr string) bool {
 }
 
 type c16Snap struct {
-	err      bool
-	solvers  []certmagic.VerifSolverInfo
-	probes   map[string]bool
-	mem      []certmagic.VerifActiveChallenge
-	store    []string
-	recs     [][2]string
-	dmem     [][2]string
-	errStr   string
+	err     bool
+	solvers []certmagic.VerifSolverInfo
+	probes  map[string]bool
+	mem     []certmagic.VerifActiveChallenge
+	store   []string
+	recs    [][2]string
+	dmem    [][2]string
+	errStr  string
 }
 
 func (e *c16Env) observe(h *c16Hist, err error) c16Snap {
@@ -309,15 +309,26 @@ func (e *c16Env) call(h *c16Hist, st c16Step) error {
 
 // e2e validates a pending challenge over the network through the solver's own listener.
 func (e *c16Env) e2e(h *c16Hist, i int) {
+	var msg string
+	for try := 0; try < 2; try++ { // a loaded machine may time a local connection out: once more
+		if msg = e.e2eOnce(h, i); msg == "" {
+			e.e2eOK++
+			return
+		}
+	}
+	e.e2eBad = append(e.e2eBad, msg)
+}
+
+func (e *c16Env) e2eOnce(h *c16Hist, i int) (failure string) {
 	o, ch := h.in.Orders[i], h.chals[i]
 	addr := h.addrs[o.Addr]
-	fail := func(f string, a ...any) { e.e2eBad = append(e.e2eBad, fmt.Sprintf(f, a...)) }
+	fail := func(f string, a ...any) { failure = fmt.Sprintf(f, a...) }
 	switch o.Kind {
 	case "http":
 		req, _ := http.NewRequest("GET", "http://"+addr+ch.HTTP01ResourcePath(), nil)
 		req.Host = ch.Identifier.Value
 		tr := &http.Transport{DisableKeepAlives: true}
-		resp, err := (&http.Client{Transport: tr, Timeout: 2 * time.Second}).Do(req)
+		resp, err := (&http.Client{Transport: tr, Timeout: 15 * time.Second}).Do(req)
 		if err != nil {
 			fail("http-01 GET %s: %v", addr, err)
 			return
@@ -329,7 +340,7 @@ func (e *c16Env) e2e(h *c16Hist, i int) {
 			return
 		}
 	case "tlsalpn":
-		d := &net.Dialer{Timeout: 2 * time.Second}
+		d := &net.Dialer{Timeout: 15 * time.Second}
 		conn, err := tls.DialWithDialer(d, "tcp", addr, &tls.Config{ServerName: ch.Identifier.Value, NextProtos: []string{acmez.ACMETLS1Protocol}, InsecureSkipVerify: true})
 		if err != nil {
 			fail("tls-alpn-01 dial %s: %v", addr, err)
@@ -349,10 +360,8 @@ func (e *c16Env) e2e(h *c16Hist, i int) {
 			fail("tls-alpn-01 %s: no challenge certificate (proto %q)", addr, cs.NegotiatedProtocol)
 			return
 		}
-	default:
-		return
 	}
-	e.e2eOK++
+	return
 }
 
 func encSnap(enc *emit.Enc, s c16Snap, h *c16Hist) c16Obs {
